@@ -259,7 +259,9 @@ def _build_field(s):
 
 UINT_EDGES = [0, 1, 0xFC, 0xFD, 0xFF, 0x100, 0xFFFF, 0x10000, 0xFFFFFFFF, 0x100000000, 2 ** 64 - 1]
 LEN_EDGES = [0, 1, 252, 253, 254, 255, 256]
-TEXT_BITS = ['a', 'é', '€', '𝄞', 'Σ', '/', ' ', '\x00', 'z' * 7]
+TEXT_BITS = ['a', 'é', '€', '𝄞', 'Σ', '/', ' ', '\x00', 'z' * 7,
+             # characters that text codecs / line handling treat specially (a decoder using utf-8-sig eats a leading U+FEFF)
+             '\ufeff', '\ufeff', '\ufffe', '\ufffd', '\u2028', '\r', '\n', '\x7f', '\x85', '\ud7ff', '\ue000', '\U0010ffff', 'e\u0301']
 
 
 def random_bytes(rng, big=False):
